@@ -16,3 +16,5 @@ import harness_list
 with cf.ThreadPoolExecutor(8) as ex:
     for f in [ex.submit(lambda kw=kw: vlib.build_harness(**kw)) for kw in harness_list.HARNESSES]:
         print(f.result())
+import f8ctv
+print(f8ctv.dumper_obj('asan'), f8ctv.pch_dir('asan'))
